@@ -218,6 +218,7 @@ impl PollCase {
         };
         let script = self.script.clone();
         let real_ms = self.real_latency_ms;
+        let noise_headers = self.glue & 4 == 4;
         let lat = self.latency_ms as i128 * 1_000_000;
         let w_http = world.clone();
         let on_call = move |r: HttpRequest| -> Result<HttpResponse, FakeErr> {
@@ -241,7 +242,14 @@ impl PollCase {
                 panic!("runaway poll loop: {} requests for a script of {}", i, script.len());
             }
             // past the end of the script the server keeps saying access_denied
-            reply_for(script.get(i).copied().unwrap_or(4))
+            let reply = reply_for(script.get(i).copied().unwrap_or(4));
+            // glue bit 2: every reply also carries headers no property gives a meaning to (Retry-After among them: the wait
+            // is governed by the interval and the slow_down rule alone)
+            if noise_headers {
+                reply.map(|r| with_irrelevant_headers(r, 0x1f ^ (i as u64 * 0x45d9f3b)))
+            } else {
+                reply
+            }
         };
         let w_sleep = world.clone();
         let on_sleep = move |d: Duration| {
@@ -413,7 +421,7 @@ impl CaseInput for PollCase {
             pend_http: r.below(4) as u32,
             pend_sleep: r.below(4) as u32,
             bad_uri: r.chance(1, 25),
-            glue: r.below(4) as u8,
+            glue: r.below(8) as u8,
             real_latency_ms: 0,
         }
     }
@@ -460,7 +468,7 @@ impl CaseInput for PollCase {
                         pend_http: (ei % 3) as u32,
                         pend_sleep: (ei % 2) as u32,
                         bad_uri: false,
-                        glue: (ei % 4) as u8,
+                        glue: (ei % 8) as u8,
                         real_latency_ms: 0,
                     });
                 }
